@@ -633,7 +633,7 @@ def rule_k2(ctx):
                 "transposed relative to the arrays it selects from",
                 instance=f"{mname}:axes")
         # self's parameters are the first disk
-        a = [dotted(x) for x in call.args[:4]]
+        a = [dotted(x) for x in ctx.p.positional_args(call)[:4]]
         if set(params4) != {"self", "other"}:
             r.note("K2", loc(f, call), dotted(call)[:80],
                    "circle_parameters() results not found by role (roles of "
